@@ -256,20 +256,21 @@ theorem gen_diag_normalize_step_eq (e : EOps α) (dbg : Bool) (s : St α m n) (i
   · simp [assert_false, mapR]
 
 
-/-! ### `eliminate_step` — PARTIAL: relative to `select_pivot`
+/-! ### `select_pivot`: the iterator chain `filter → map → min_by → map` is the model's "first minimal" fold -/
 
-`select_pivot` (an iterator chain `filter → map → min_by → map`) is translated, but its equality with the model's
-fold `selectPivot` is NOT proved here; the theorem below takes that equality as a hypothesis and proves the rest of
-`eliminate_step` (the two swaps, the unit normalisation, `eliminate_at` with its assert). -/
+theorem gen_select_pivot_eq (e : EOps α) (dbg : Bool) (s : St α m n) (below : Nat) (j : Fin n) :
+    SnfCalc.select_pivot e dbg (ofSt s) below j.1 = ok ((selectPivot e s.t below j).map Fin.val) :=
+  select_pivot_eq' e dbg s below j
 
-theorem gen_eliminate_step_eq_partial (e : EOps α) (dbg : Bool) (fuel : Nat) (s : St α m n) (i : Fin m) (j : Fin n)
-    (hi : i.1 < n)
-    (hsel : SnfCalc.select_pivot e dbg (ofSt s) i.1 j.1 = ok ((selectPivot e s.t i.1 j).map Fin.val)) :
+/-! ### `eliminate_step` -/
+
+theorem gen_eliminate_step_eq (e : EOps α) (dbg : Bool) (fuel : Nat) (s : St α m n) (i : Fin m) (j : Fin n)
+    (hi : i.1 < n) :
     SnfCalc.eliminate_step e dbg fuel (ofSt s) i.1 j.1 =
       mapR (fun o => match o with | none => (ofSt s, false) | some s3 => (ofSt s3, true))
         (eliminateStep e dbg fuel s i j hi) := by
   unfold SnfCalc.eliminate_step eliminateStep
-  rw [hsel]
+  rw [gen_select_pivot_eq]
   cases hp : selectPivot e s.t i.1 j with
   | none => simp [mapR_ok]
   | some ip =>
@@ -319,5 +320,220 @@ theorem gen_eliminate_step_eq_partial (e : EOps α) (dbg : Bool) (fuel : Nat) (s
       · simp only [Bool.false_eq_true, if_false]
         cases eliminateAt e dbg i ⟨i.1, hi⟩ fuel s1 <;> simp [mapR]
       · simp [mapR]
+
+
+/-! ### `eliminate_all`: `for j in 0..n { if i >= m { break } … }` against the model's fold (which idles once `i ≥ m`) -/
+
+theorem eliminateAllStep_done (e : EOps α) (dbg : Bool) (fuel : Nat) (s : St α m n) (i : Nat) (hi : m ≤ i)
+    (l : List (Fin n)) : l.foldlM (eliminateAllStep e dbg fuel) (s, i) = ok (s, i) := by
+  induction l with
+  | nil => rfl
+  | cons x xs ih =>
+    have : eliminateAllStep e dbg fuel (s, i) x = ok (s, i) := by
+      unfold eliminateAllStep
+      have : ¬ (i < m ∧ i ≤ x.1) := by omega
+      simp [this]
+    simp [List.foldlM_cons, this, ih]
+
+theorem gen_eliminate_all_loop_eq (e : EOps α) (dbg : Bool) (fuel : Nat) :
+    ∀ (d k : Nat) (s : St α m n) (i : Nat), k + d = n → i ≤ k →
+      Loop.forGo (SnfCalc.eliminate_all_for1 (m := m) (n := n) e dbg fuel m) d k (ofSt s, i) =
+        (((List.finRange n).drop k).foldlM (eliminateAllStep e dbg fuel) (s, i) >>=
+          fun si => ok ((ofSt si.1, si.2), true)) := by
+  intro d
+  induction d with
+  | zero =>
+    intro k s i hk _
+    have : (List.finRange n).drop k = [] := by
+      apply List.drop_eq_nil_of_le; simp; omega
+    simp [Loop.forGo, this]
+  | succ d ih =>
+    intro k s i hk hik
+    have hkn : k < n := by omega
+    have hdrop : (List.finRange n).drop k = ⟨k, hkn⟩ :: (List.finRange n).drop (k + 1) := by
+      rw [List.drop_eq_getElem_cons (by simpa using hkn)]
+      simp
+    rw [hdrop, List.foldlM_cons]
+    unfold Loop.forGo SnfCalc.eliminate_all_for1
+    by_cases him : i ≥ m
+    · have hstep : eliminateAllStep e dbg fuel (s, i) ⟨k, hkn⟩ = ok (s, i) := by
+        unfold eliminateAllStep
+        have : ¬ (i < m ∧ i ≤ k) := by omega
+        simp [this]
+      simp [him, hstep, eliminateAllStep_done e dbg fuel s i him]
+    · have him' : i < m := by omega
+      have hst := gen_eliminate_step_eq e dbg fuel s ⟨i, him'⟩ ⟨k, hkn⟩ (by simp; omega)
+      simp only [] at hst
+      have hcond : i < m ∧ i ≤ k := ⟨him', hik⟩
+      simp only [him, decide_false, Bool.false_eq_true, if_false, hst]
+      unfold eliminateAllStep
+      simp only [hcond, and_self, dite_true]
+      cases hes : eliminateStep e dbg fuel s ⟨i, him'⟩ ⟨k, hkn⟩ (by simp; omega) with
+      | ok o =>
+        cases o with
+        | none =>
+          simp only [mapR_ok, bind_ok, Bool.false_eq_true, if_false]
+          exact ih (k + 1) s i (by omega) (by omega)
+        | some s' =>
+          simp only [mapR_ok, bind_ok, if_true]
+          exact ih (k + 1) s' (i + 1) (by omega) (by omega)
+      | panic => simp [mapR_panic]
+      | err => simp [mapR_err]
+
+theorem gen_eliminate_all_eq (e : EOps α) (dbg : Bool) (fuel : Nat) (s : St α m n) :
+    SnfCalc.eliminate_all e dbg fuel (ofSt s) = mapR ofSt (eliminateAll e dbg fuel s) := by
+  unfold SnfCalc.eliminate_all eliminateAll Loop.forRange
+  have := gen_eliminate_all_loop_eq e dbg fuel n 0 s 0 (by omega) (by omega)
+  simp only [List.drop_zero] at this
+  simp only [Nat.sub_zero, this, bind_assoc', bind_ok]
+  cases (List.finRange n).foldlM (eliminateAllStep e dbg fuel) (s, 0) <;> simp [mapR]
+
+
+/-! ### `diag_normalize`: `r`, the `'outer` loop with its inner `for`, the final normalisation loop -/
+
+/-- the number of leading non-zero diagonal entries, computed by `(0..n).filter(..).next().unwrap_or(n)` -/
+theorem gen_first_zero_eq (e : EOps α) (dbg : Bool) (s : St α m n) :
+    (Iter.filterM (SnfCalc.diag_normalize_closure1 (m := m) (n := n) e dbg (ofSt s)) (List.range' 0 (min m n - 0)) >>=
+      fun r2 => ok (Opt.unwrap_or (List.head? r2) (min m n))) = ok (firstZeroDiag e s.t) := by
+  have hf : Iter.filterM (SnfCalc.diag_normalize_closure1 (m := m) (n := n) e dbg (ofSt s)) (List.range' 0 (min m n - 0)) =
+      ok ((List.range' 0 (min m n - 0)).filter fun i => e.isZero (dg e.toROps s.t i)) := by
+    apply filterM_ok
+    intro k hk
+    have hk' : k < min m n := by have := List.mem_range'_1.1 hk; omega
+    have h1 : k < m := Nat.lt_of_lt_of_le hk' (Nat.min_le_left m n)
+    have h2 : k < n := Nat.lt_of_lt_of_le hk' (Nat.min_le_right m n)
+    have := get_in s.t ⟨k, h1⟩ ⟨k, h2⟩
+    simp only [] at this
+    simp [SnfCalc.diag_normalize_closure1, ofSt, this, dg, h1, h2]
+  rw [hf]
+  simp only [bind_ok, firstZeroDiag, Nat.sub_zero, List.range_eq_range', Opt.unwrap_or, List.head?_filter]
+
+theorem firstZeroDiag_le (e : EOps α) (T : Mat α m n) : firstZeroDiag e T ≤ min m n := by
+  have key : ∀ o : Option Nat, (∀ x, o = some x → x < min m n) → o.getD (min m n) ≤ min m n := by
+    intro o ho
+    cases o with
+    | none => simp
+    | some x => simpa using Nat.le_of_lt (ho x rfl)
+  unfold firstZeroDiag
+  exact key _ (fun x hx => List.mem_range.1 (List.mem_of_find?_eq_some hx))
+
+/-- one pass of the inner `for i in 0..r-1` (left by `continue 'outer` when a step reports `false`) -/
+theorem gen_diag_pass_eq (e : EOps α) (dbg : Bool) (r : Nat) (hrm : r ≤ m) (hrn : r ≤ n) :
+    ∀ (d cnt i : Nat) (s : St α m n), i + d + 1 = r → d ≤ cnt →
+      Loop.forGo (SnfCalc.diag_normalize_for3 (m := m) (n := n) e dbg) d i (ofSt s) =
+        mapR (fun p => (ofSt p.1, p.2)) (diagPass e dbg r cnt i s) := by
+  intro d
+  induction d with
+  | zero =>
+    intro cnt i s hi _
+    cases cnt with
+    | zero => rfl
+    | succ c =>
+      unfold diagPass
+      have : ¬ (i + 1 < r ∧ i + 1 < m ∧ i + 1 < n) := by omega
+      simp [Loop.forGo, this, mapR]
+  | succ d ih =>
+    intro cnt i s hi hc
+    obtain ⟨c, rfl⟩ : ∃ c, cnt = c + 1 := ⟨cnt - 1, by omega⟩
+    have hcond : i + 1 < r ∧ i + 1 < m ∧ i + 1 < n := by omega
+    unfold Loop.forGo SnfCalc.diag_normalize_for3 diagPass
+    simp only [hcond, and_self, dite_true, gen_diag_normalize_step_eq e dbg s i hcond.2.1 hcond.2.2]
+    cases hs : diagNormalizeStep e dbg s i hcond.2.1 hcond.2.2 with
+    | ok p =>
+      obtain ⟨s1, b⟩ := p
+      cases b
+      · simp [mapR]
+      · simp only [mapR_ok, bind_ok, Bool.not_true, Bool.false_eq_true, if_false, if_true]
+        exact ih c (i + 1) s1 (by omega) (by omega)
+    | panic => simp [mapR]
+    | err => simp [mapR]
+
+theorem gen_diag_outer_eq (e : EOps α) (dbg : Bool) (r : Nat) (hr : 1 ≤ r) (hrm : r ≤ m) (hrn : r ≤ n) (fuel : Nat)
+    (s : St α m n) :
+    SnfCalc.diag_normalize_loop2 e dbg fuel r (ofSt s) = mapR ofSt (diagOuter e dbg r fuel s) := by
+  induction fuel generalizing s with
+  | zero => rfl
+  | succ f ih =>
+    unfold SnfCalc.diag_normalize_loop2 diagOuter Loop.forRange
+    have hsub : U64.sub r 1 = ok (r - 1) := by simp [U64.sub]; omega
+    simp only [hsub, bind_ok, Nat.sub_zero, gen_diag_pass_eq e dbg r hrm hrn (r - 1) r 0 s (by omega) (by omega)]
+    cases hp : diagPass e dbg r r 0 s with
+    | ok p =>
+      obtain ⟨s1, b⟩ := p
+      cases b <;> simp [mapR, ih]
+    | panic => simp [mapR]
+    | err => simp [mapR]
+
+theorem gen_diag_normalize_eq (e : EOps α) (dbg : Bool) (fuel : Nat) (s : St α m n) :
+    SnfCalc.diag_normalize e dbg fuel (ofSt s) = mapR ofSt (diagNormalize e dbg fuel s) := by
+  unfold SnfCalc.diag_normalize diagNormalize
+  have hfz := gen_first_zero_eq e dbg s
+  have hle := firstZeroDiag_le e s.t
+  by_cases hdb : (dbg && !isDiag e.toROps s.t) = true
+  · have : (!dbg || isDiag e.toROps s.t) = false := by
+      cases dbg <;> cases hh : isDiag e.toROps s.t <;> simp_all
+    simp [hdb, show (ofSt s).target = s.t from rfl, this, assert_false, mapR]
+  · have : (!dbg || isDiag e.toROps s.t) = true := by
+      cases dbg <;> cases hh : isDiag e.toROps s.t <;> simp_all
+    simp only [show (ofSt s).target = s.t from rfl, this, assert_true, bind_ok, hdb, Bool.false_eq_true, if_false]
+    cases hf : Iter.filterM (SnfCalc.diag_normalize_closure1 (m := m) (n := n) e dbg (ofSt s)) (List.range' 0 (min m n - 0)) with
+    | ok r2 =>
+      rw [hf] at hfz
+      simp only [bind_ok, Res.ok.injEq] at hfz
+      simp only [bind_ok, hfz]
+      by_cases h0 : firstZeroDiag e s.t = 0
+      · simp [h0, mapR]
+      · have hr1 : 1 ≤ firstZeroDiag e s.t := by omega
+        have hrm : firstZeroDiag e s.t ≤ m := Nat.le_trans hle (Nat.min_le_left m n)
+        have hrn : firstZeroDiag e s.t ≤ n := Nat.le_trans hle (Nat.min_le_right m n)
+        simp only [h0, decide_false, Bool.false_eq_true, if_false,
+          gen_diag_outer_eq e dbg _ hr1 hrm hrn fuel s]
+        cases ho : diagOuter e dbg (firstZeroDiag e s.t) fuel s with
+        | ok s1 =>
+          simp only [mapR_ok, bind_ok]
+          have hfor := forGo_eq_foldlM_range (ofSt (α := α) (m := m) (n := n)) (normalizeStep e)
+            (SnfCalc.diag_normalize_for4 (m := m) (n := n) e dbg) (firstZeroDiag e s.t) 0 s1 (by
+              intro k st _ hk
+              have h1 : k < m := by omega
+              have h2 : k < n := by omega
+              have hg := get_in st.t ⟨k, h1⟩ ⟨k, h2⟩
+              simp only [] at hg
+              have hmr := gen_mul_row_eq e dbg st ⟨k, h1⟩ (e.normUnit (st.t.get ⟨k, h1⟩ ⟨k, h2⟩))
+              simp only [] at hmr
+              unfold SnfCalc.diag_normalize_for4 normalizeStep
+              simp only [show (ofSt st).target = st.t from rfl, hg, bind_ok, h1, h2, and_self, dite_true]
+              cases e.isOne (e.normUnit (st.t.get ⟨k, h1⟩ ⟨k, h2⟩))
+              · simp only [Bool.not_false, if_true, hmr]
+                cases sMulRow e st ⟨k, h1⟩ (e.normUnit (st.t.get ⟨k, h1⟩ ⟨k, h2⟩)) <;> simp [mapR]
+              · simp)
+          unfold Loop.forRange
+          simp only [Nat.sub_zero, hfor, bind_assoc', bind_ok, List.range_eq_range']
+          cases (List.range' 0 (firstZeroDiag e s.t)).foldlM (normalizeStep e) s1 <;> simp [mapR]
+        | panic => simp [mapR]
+        | err => simp [mapR]
+    | panic => rw [hf] at hfz; simp at hfz
+    | err => rw [hf] at hfz; simp at hfz
+
+/-! ### `process` (the LLL–HNF preprocessing is the parameter `pre`, as in the model) -/
+
+theorem gen_process_eq (e : EOps α) (dbg : Bool) (pre : St α m n → Res (St α m n))
+    (pre' : SnfCalcS α m n → Res (SnfCalcS α m n)) (hpre : ∀ s, pre' (ofSt s) = mapR ofSt (pre s))
+    (fuel : Nat) (A : Mat α m n) :
+    SnfCalc.process e dbg pre' fuel (ofSt (St.init e.toROps A)) = mapR ofSt (snfCalc e dbg pre fuel A) := by
+  unfold SnfCalc.process snfCalc
+  cases hz : isZeroMat e.toROps A
+  · simp only [show (ofSt (St.init e.toROps A)).target = A from rfl, hz, Bool.false_eq_true, if_false, hpre]
+    cases pre (St.init e.toROps A) with
+    | ok s1 =>
+      simp only [mapR_ok, bind_ok, gen_eliminate_all_eq]
+      cases eliminateAll e dbg fuel s1 with
+      | ok s2 =>
+        simp only [mapR_ok, bind_ok, gen_diag_normalize_eq]
+        cases diagNormalize e dbg fuel s2 <;> simp [mapR]
+      | panic => simp [mapR]
+      | err => simp [mapR]
+    | panic => simp [mapR]
+    | err => simp [mapR]
+  · simp [show (ofSt (St.init e.toROps A)).target = A from rfl, hz, mapR]
 
 end Yuiv.C09Gen
